@@ -5,6 +5,9 @@ import (
 	"encoding/binary"
 
 	gots "github.com/Comcast/gots/v2"
+	"github.com/Comcast/gots/v2/packet"
+	"github.com/Comcast/gots/v2/psi"
+	"github.com/Comcast/gots/v2/scte35"
 
 	"gotsverif/engine"
 	"gotsverif/ref"
@@ -141,6 +144,99 @@ func c13CheckTwo(c c13Two) engine.Result {
 	return res
 }
 
+type c13Emit struct {
+	Kind string `json:"kind"`
+	Seed int    `json:"seed"`
+}
+
+// c13CheckEmitted: every section the library emits satisfies the receiver's validity condition
+// (MPEG-2 CRC of the whole section is zero), judged by the reference CRC.
+func c13CheckEmitted(c c13Emit) engine.Result {
+	var res engine.Result
+	engine.Guard(&res, "emitted-section|"+c.Kind, func() {
+		switch c.Kind {
+		case "scte35":
+			seeds := c05SeedPools["scte35"]
+			if c.Seed >= len(seeds) {
+				return
+			}
+			s, err := scte35.NewSCTE35(seeds[c.Seed])
+			if err != nil {
+				return
+			}
+			for _, tier := range []uint16{0xFFF, 0x123} {
+				s.SetTier(tier)
+				enc := s.UpdateData()
+				res.Evals++
+				if ref.CRC32MPEG2(enc) != 0 {
+					res.Failf("emitted-section|splice_info_section|crc-residue", "seed %d tier %#x: CRC of the encoded section is %08x, want 0", c.Seed, tier, ref.CRC32MPEG2(enc))
+				}
+			}
+		case "pmt":
+			seeds := c05SeedPools["pmt"]
+			if c.Seed >= len(seeds) {
+				return
+			}
+			payload := seeds[c.Seed]
+			sec, ok := ref.PayloadSections(payload)
+			_ = sec
+			if !ok {
+				return
+			}
+			pmt, err := psi.NewPMT(payload)
+			if err != nil || len(pmt.Pids()) == 0 {
+				return
+			}
+			for first := 20; first <= 184; first += 41 {
+				var pkts []*packet.Packet
+				for i, rest := 0, payload; len(rest) > 0; i++ {
+					n := 184
+					if i == 0 {
+						n = first
+					}
+					if n > len(rest) {
+						n = len(rest)
+					}
+					chunk := rest[:n]
+					if len(rest) == n && n < 184 && i > 0 {
+						chunk = append(append([]byte{}, chunk...), bytes.Repeat([]byte{0xFF}, 184-n)...)
+					}
+					p := packet.Packet(ref.CarryPayload(0x64, i == 0, byte(i), chunk))
+					pkts = append(pkts, &p)
+					rest = rest[n:]
+				}
+				for k := 1; k <= len(pmt.Pids()); k++ {
+					out, _ := psi.FilterPMTPacketsToPids(pkts, pmt.Pids()[:k])
+					var pay []byte
+					for _, o := range out {
+						b, _ := packet.Payload(o)
+						pay = append(pay, b...)
+					}
+					if len(pay) < 4 {
+						continue
+					}
+					start := 1 + int(pay[0])
+					if start+3 > len(pay) {
+						continue
+					}
+					sl := int(pay[start+1]&0x0F)<<8 | int(pay[start+2])
+					if start+3+sl > len(pay) {
+						res.Failf("emitted-section|filtered-pmt|truncated", "filtered PMT section does not fit the emitted payload")
+						continue
+					}
+					res.Evals++
+					if crc := ref.CRC32MPEG2(pay[start : start+3+sl]); crc != 0 {
+						res.Failf("emitted-section|filtered-pmt|crc-residue", "seed %d first %d keep %d: CRC of the filtered section is %08x, want 0", c.Seed, first, k, crc)
+					}
+				}
+			}
+		}
+	})
+	res.Nontrivial = 1
+	res.Outcome(c.Kind, res.Evals)
+	return res
+}
+
 func init() {
 	engine.Register(&engine.Property{
 		ID: "C13", Title: "The checksum function is CRC-32/MPEG-2 on every input", Level: "model_checking",
@@ -184,6 +280,19 @@ func init() {
 					}
 				},
 				Check: c13CheckTwo, Batch: 4,
+			},
+			&engine.Enum[c13Emit]{
+				Name: "emitted-sections",
+				Rule: "every captured/constructed SCTE-35 section of the seed pool decoded and re-encoded with two tier values, and every PMT of the seed pool filtered to each prefix of its PID list under 5 packetisations: the reference CRC of every emitted section must be zero (the exhaustive versions of this clause live in C09 and C14)",
+				Gen: func(r *engine.Run, emit func(c13Emit)) {
+					for i := range c05SeedPools["scte35"] {
+						emit(c13Emit{"scte35", i})
+					}
+					for i := range c05SeedPools["pmt"] {
+						emit(c13Emit{"pmt", i})
+					}
+				},
+				Check: c13CheckEmitted, Batch: 1,
 			},
 		},
 	})
